@@ -34,12 +34,27 @@ class Bucket(object):
         self.s3m = s3m
         self.old = s3m.datetime
         s3m.datetime = FakeDT
+        # uuid1().hex starts with time_low, which wraps every ~7 minutes: inside a day folder key order is not save
+        # order.  The harness saves within milliseconds, so it makes that explicit with seeded random ids.
+        self.old_uuid = s3m.uuid
+        rnd = random.Random(16)
+
+        class _U(object):
+            def __init__(self):
+                self.hex = '%032x' % rnd.getrandbits(128)
+
+        class _FakeUuid(object):
+            @staticmethod
+            def uuid1():
+                return _U()
+        s3m.uuid = _FakeUuid
         self.writer = make_s3_cassette(key_prefix='tw', read_only=False)
         self.reader = reopen_s3_cassette(self.writer, read_only=True)
         self.ids = {}  # id -> instant
 
     def close(self):
         self.s3m.datetime = self.old
+        self.s3m.uuid = self.old_uuid
 
     def save_at(self, instant):
         _Clock.now = instant
